@@ -296,7 +296,7 @@ class Stub:
         raise Skip("cyclic bases")
       ci = self.classes.get(name)
       if ci is None:
-        raise Skip(f"base {name} is not a class of the stub")
+        raise Skip("a base is not a class of the stub")
       if ci.other:
         raise Skip("class has keywords / unmodelled statements")
       bases = []
@@ -304,7 +304,7 @@ class Stub:
         if b == ("n", "object"):
           continue
         if b[0] != "n":
-          raise Skip("parameterised base class " + show(b))
+          raise Skip("parameterised base class")
         bases.append(b[1])
       seqs = [list(lin(b, stack + [name])) for b in bases] + [list(bases)]
       res = [name]
@@ -457,9 +457,9 @@ def element_probe(t):
   if "nothing" in names_in(t):
     raise Skip("empty container type")
   h, a = t[1], t[2]
-  if h == "list" and len(a) == 1:
+  if h in ("list", "collections.deque") and len(a) == 1:
     return "[0]", a[0]
-  if h == "dict" and len(a) == 2 and a[0] in (("n", "str"), ("n", "int")):
+  if h in ("dict", "collections.defaultdict", "collections.OrderedDict") and len(a) == 2 and a[0] in (("n", "str"), ("n", "int")):
     return ("['k']" if a[0] == ("n", "str") else "[0]"), a[1]
   if h == "tuple" and a and all(x != ("e",) for x in a):
     return f"[{len(a) - 1}]", a[-1]
